@@ -38,8 +38,12 @@ def q_sym_mols(c, A, ctx):
 
 
 def q_labelled_uc_mols(c, A, ctx):
+    # composite query: after symmetry_unique_molecules() every unit-cell
+    # molecule must carry its label, so here the labels are compared strictly
+    # (elsewhere asym_mol_idx is a lazily added annotation, see normal.same)
     c.symmetry_unique_molecules()
-    return c.unit_cell_molecules()
+    mols = c.unit_cell_molecules()
+    return {"molecules": mols, "labels": [m.properties.get("asym_mol_idx", "missing") for m in mols]}
 
 
 def q_mol_dict(c, A, ctx):
@@ -210,13 +214,16 @@ def m_normH(c, A, ctx):
     c.normalize_hydrogen_bondlengths()
 
 
-MUTATORS = {"toH": m_toH, "toR": m_toR, "normH": m_normH}
+def m_toX(c, A, ctx):
+    # an invalid choice: raises, and like every state-changing operation that
+    # raises it may leave any state behind - later answers must match it
+    c.choose_trigonal_lattice("X")
+
+
+MUTATORS = {"toH": m_toH, "toR": m_toR, "normH": m_normH, "toX": m_toX}
 
 
 # ------------------------------------------------ operations meant to raise
-def f_toX(c, A, ctx):
-    c.choose_trigonal_lattice("X")
-
 
 def f_bad_save(c, A, ctx):
     c.save("%s/x.unknown" % ctx["dir"])
@@ -231,7 +238,6 @@ def f_bad_load(c, A, ctx):
 
 
 RAISERS = {
-    "toX": f_toX,
     "bad_save": f_bad_save,
     "bad_group": f_bad_group,
     "bad_load": f_bad_load,
